@@ -43,7 +43,7 @@ First(vs) == LET b == SelectSeq(vs, LAMBDA x : x # "ok") IN IF b = <<>> THEN "ok
 
 \* record a Layer-P verdict v for the current line
 Verdict(v) ==
-  /\ skip' = (v # "ok")
+  /\ skip' = (skip \/ v # "ok")
   /\ nbad' = IF v # "ok" THEN nbad + 1 ELSE nbad
   /\ (v # "ok" => PrintT(<<"TRACE-BAD", l, nbeh, v>>))
 
@@ -141,11 +141,12 @@ TLim == /\ Ev.ev = "Lim"
 TOther == /\ Ev.ev \notin {"New", "Pin", "W", "N", "Adj", "Rate", "Lim"}
           /\ UNCHANGED <<m, g, p, gmt, gms, codec, pidm, drift, frozen, nbeh, skip, nbad, nknown>>
 
-TSkip == /\ skip /\ Ev.ev # "New"
+\* (a NACK event is judged from its own fields: also after another clause has failed in this behaviour)
+TSkip == /\ skip /\ Ev.ev \notin {"New", "N"}
          /\ UNCHANGED <<m, g, p, gmt, gms, codec, pidm, drift, frozen, nbeh, skip, nbad, nknown>>
 
 Step == /\ l <= Len(Trace)
-        /\ (TNew \/ TSkip \/ (~skip /\ (TPin \/ TW \/ TN \/ TAdj \/ TRate \/ TLim \/ TOther)))
+        /\ (TNew \/ TSkip \/ TN \/ (~skip /\ (TPin \/ TW \/ TAdj \/ TRate \/ TLim \/ TOther)))
         /\ l' = l + 1 /\ UNCHANGED done
 
 Finish == /\ l = Len(Trace) + 1 /\ ~done /\ done' = TRUE
